@@ -1353,3 +1353,36 @@ func ruleReloadMode(rule string) ruleFn {
 		}
 	}
 }
+
+// ---------------------------------------------------------------------------
+// *-CTLRESTFWD: a controller REST action is answered after the controller did it
+// ---------------------------------------------------------------------------
+
+var ctlRestOps = []struct{ handler, op string }{
+	{"ResizeVolume", "Resize"}, {"SnapshotVolume", "Snapshot"}, {"RevertVolume", "Revert"}, {"StartVolume", "Start"},
+	{"ShutdownVolume", "Shutdown"}, {"DeleteSnapshot", "DeleteSnapshot"}, {"CreateReplica", "AddReplica"},
+	{"CreateQuorumReplica", "AddQuorumReplica"}, {"DeleteReplica", "RemoveReplica"}, {"UpdateReplica", "SetReplicaMode"},
+	{"PrepareRebuildReplica", "PrepareRebuildReplica"}, {"VerifyRebuildReplica", "VerifyRebuildReplica"}, {"RegisterReplica", "RegisterReplica"},
+}
+
+func ruleCtlRestForward(rule string) ruleFn {
+	return func(c *Ctx) {
+		c.Doc(rule, "every action handler of the controller's REST API reports success (returns nil) only after it called the Controller operation it stands for, or after it answered 404 for an id it does not know: no handler decides by itself that a request 'is already satisfied' (a grow compared with a size that still holds the start-up sentinel, a shrink answered 200)")
+		n := 0
+		for _, e := range ctlRestOps {
+			fn := c.P.Fn("(*controller/rest.Server)." + e.handler)
+			if fn == nil {
+				continue
+			}
+			n++
+			op := fCtl + e.op
+			c.Guard(rule, fn, successReturns(fn), "answer success", nil, Need{Desc: "the controller operation " + e.op + " was called (or the id is unknown: 404)", Calls: []string{op}, Instr: func(in ssa.Instruction) bool {
+				cl, ok := in.(*ssa.Call)
+				return ok && cl.Call.IsInvoke() && cl.Call.Method.Name() == "WriteHeader"
+			}})
+		}
+		if n < 10 {
+			c.Undecided(rule, "vacuity-floor", "", fmt.Sprintf("only %d action handlers found", n))
+		}
+	}
+}
